@@ -90,38 +90,10 @@ def check(ck):
         from ..validation import Wiring
         c06.lone_anonymous_table(ck, repo, Wiring(repo))
     with ck.rule("R5"):
-        cv = repo.func("tartiflette/types/exceptions/tartiflette.py", "TartifletteError.coerce_value")
-        d = [n for n in walk_no_nested(cv.node) if isinstance(n, ast.Dict)]
-        keys = {unparse(k): unparse(v) for k, v in zip(d[0].keys, d[0].values)} if d else {}
-        ck.ob("error record: message (string), path, locations", set(keys) == {"'message'", "'path'", "'locations'"} and keys.get("'message'") == "self.user_message or self.message"
-              and keys.get("'path'") == "path or self.path", cv, d[0] if d else cv.node, construct="record:keys", detail=str(keys))
-        fvv = FuncView(cv)
-        rets = fvv.returns()
-        dname = None
-        for n in walk_no_nested(cv.node):
-            if isinstance(n, ast.Assign) and isinstance(n.value, ast.Dict) and d and n.value is d[0]:
-                dname = unparse(n.targets[0])
-        ck.ob("error record: coerce_value returns the record it built", len(rets) == 1 and dname is not None and unparse(rets[0].value) == dname, cv, rets[0] if rets else cv.node, construct="record:returned")
-        ext = [n for n in walk_no_nested(cv.node) if isinstance(n, ast.Assign) and isinstance(n.targets[0], ast.Subscript) and unparse(n.targets[0].slice) == "'extensions'"]
-        ck.ob("error record: `extensions` is present exactly when the error carries some", len(ext) == 1 and set(fvv.conditions(ext[0])) == {("self.extensions", "T")} and
-              unparse(ext[0].targets[0].value) == dname, cv, ext[0] if ext else cv.node, construct="record:extensions-iff")
-        lp = [l for l in fvv.loops() if isinstance(l, ast.For)]
-        ck.ob("error record: locations come from the attached locations, else from the error's own", len(lp) == 1 and unparse(lp[0].iter) == "locations or self.locations", cv,
-              lp[0] if lp else cv.node, construct="record:locations-source")
+        error_record_shape(ck, repo)
         # `path` is the list of keys / indices (a Path object is not serialisable): what handle_field_error hands to located_error
         from . import c02
         c02.r1(ck, repo)
-        loc = repo.func("tartiflette/language/ast/location.py", "Location.collect_value")
-        r = FuncView(loc).returns()
-        ok = len(r) == 1 and isinstance(r[0].value, ast.Dict) and {unparse(k): unparse(v) for k, v in zip(r[0].value.keys, r[0].value.values)} == {"'line'": "self.line", "'column'": "self.column"}
-        ck.ob("location record: {line, column} of the node's start", ok, loc, loc.node, construct="record:location")
-        fv = FuncView(cv)
-        app = [c for c in fv.calls("append") if unparse(c.func.value) == "computed_locations"]
-        ok = len(app) == 1 and unparse(app[0].args[0]).endswith(".collect_value()") and keys.get("'locations'") == "computed_locations"
-        ck.ob("error record: locations are the collected node locations (a list)", ok, cv, app[0] if app else cv.node, construct="record:locations-list")
-        init = repo.cls("tartiflette/types/exceptions/tartiflette.py", "TartifletteError").self_attrs()
-        ck.ob("error objects normalise path to list-or-None and locations to a list", unparse(init.get("path")) == "path or None" and unparse(init.get("locations")) == "locations or []",
-              cv, cv.node, construct="record:normalised")
 
 
 def _sources_coercible(ck, repo):
@@ -172,6 +144,39 @@ def _sources_coercible(ck, repo):
     st = [n for n in walk_no_nested(le.node) if isinstance(n, ast.Assign) and isinstance(n.value, ast.IfExp) and unparse(n.targets[0]) == "graphql_error"]
     ok = len(st) == 1 and ifexp_parts(st[0].value)[0] == "is_coercible_exception(exception)" and ifexp_parts(st[0].value)[2].startswith("graphql_error_from_nodes(")
     ck.ob("located_error wraps non-coercible exceptions", ok, le, st[0] if st else le.node, construct="source:located")
+
+
+def error_record_shape(ck, repo):
+    """What TartifletteError.coerce_value answers (shared with C02.R7)."""
+    cv = repo.func("tartiflette/types/exceptions/tartiflette.py", "TartifletteError.coerce_value")
+    d = [n for n in walk_no_nested(cv.node) if isinstance(n, ast.Dict)]
+    keys = {unparse(k): unparse(v) for k, v in zip(d[0].keys, d[0].values)} if d else {}
+    ck.ob("error record: message (string), path, locations", set(keys) == {"'message'", "'path'", "'locations'"} and keys.get("'message'") == "self.user_message or self.message"
+          and keys.get("'path'") == "path or self.path", cv, d[0] if d else cv.node, construct="record:keys", detail=str(keys))
+    fvv = FuncView(cv)
+    rets = fvv.returns()
+    dname = None
+    for n in walk_no_nested(cv.node):
+        if isinstance(n, ast.Assign) and isinstance(n.value, ast.Dict) and d and n.value is d[0]:
+            dname = unparse(n.targets[0])
+    ck.ob("error record: coerce_value returns the record it built", len(rets) == 1 and dname is not None and unparse(rets[0].value) == dname, cv, rets[0] if rets else cv.node, construct="record:returned")
+    ext = [n for n in walk_no_nested(cv.node) if isinstance(n, ast.Assign) and isinstance(n.targets[0], ast.Subscript) and unparse(n.targets[0].slice) == "'extensions'"]
+    ck.ob("error record: `extensions` is present exactly when the error carries some", len(ext) == 1 and set(fvv.conditions(ext[0])) == {("self.extensions", "T")} and
+          unparse(ext[0].targets[0].value) == dname, cv, ext[0] if ext else cv.node, construct="record:extensions-iff")
+    lp = [l for l in fvv.loops() if isinstance(l, ast.For)]
+    ck.ob("error record: locations come from the attached locations, else from the error's own", len(lp) == 1 and unparse(lp[0].iter) == "locations or self.locations", cv,
+          lp[0] if lp else cv.node, construct="record:locations-source")
+    loc = repo.func("tartiflette/language/ast/location.py", "Location.collect_value")
+    r = FuncView(loc).returns()
+    ok = len(r) == 1 and isinstance(r[0].value, ast.Dict) and {unparse(k): unparse(v) for k, v in zip(r[0].value.keys, r[0].value.values)} == {"'line'": "self.line", "'column'": "self.column"}
+    ck.ob("location record: {line, column} of the node's start", ok, loc, loc.node, construct="record:location")
+    fv = FuncView(cv)
+    app = [c for c in fv.calls("append") if unparse(c.func.value) == "computed_locations"]
+    ok = len(app) == 1 and unparse(app[0].args[0]).endswith(".collect_value()") and keys.get("'locations'") == "computed_locations"
+    ck.ob("error record: locations are the collected node locations (a list)", ok, cv, app[0] if app else cv.node, construct="record:locations-list")
+    init = repo.cls("tartiflette/types/exceptions/tartiflette.py", "TartifletteError").self_attrs()
+    ck.ob("error objects normalise path to list-or-None and locations to a list", unparse(init.get("path")) == "path or None" and unparse(init.get("locations")) == "locations or []",
+          cv, cv.node, construct="record:normalised")
 
 
 def _operation_selection(ck, repo):
